@@ -159,7 +159,8 @@ class Builder:
     """Builds value graphs for functions of a Program."""
 
     def __init__(self, prog: Program, inline=None, max_depth: int = 8, construct_inline: bool = True,
-                 static_fold: bool = True):
+                 static_fold: bool = True, merge_ifs: bool = False):
+        self.merge_ifs = merge_ifs  # data-dependent `if` blocks of pure assignments become ite merges (reference sources)
         self.prog = prog
         self.inline = inline or (lambda kind, name, cls: False)
         self.max_depth = max_depth
@@ -281,7 +282,18 @@ class Builder:
                 v = self.snap(self.mk_call(d, (self.snap(v),), (), ctx, lineno=s.lineno))
             env[s.name] = v
         elif isinstance(s, ast.If):
-            if self.decide(self.ev(s.test, env, ctx), s):
+            test = self.ev(s.test, env, ctx)
+            if self.merge_ifs and self.fold(test) is None and test not in self.decisions and _only_assigns(s.body) and _only_assigns(s.orelse):
+                e1, e2 = dict(env), dict(env)
+                self.run(s.body, e1, ctx)
+                self.run(s.orelse, e2, ctx)
+                for k in set(e1) | set(e2):
+                    a, b_ = e1.get(k, env.get(k)), e2.get(k, env.get(k))
+                    if a is None or b_ is None:
+                        continue
+                    env[k] = a if a == b_ else self.mk_ite(test, a, b_)
+                return
+            if self.decide(test, s):
                 self.run(s.body, env, ctx)
             else:
                 self.run(s.orelse, env, ctx)
@@ -1230,6 +1242,20 @@ def _assigned_names(body) -> set[str]:
 
 def strip_not(t):
     return t
+
+
+def _only_assigns(body) -> bool:
+    for st in body:
+        if isinstance(st, (ast.Assign, ast.AugAssign, ast.AnnAssign, ast.Pass)):
+            if isinstance(st, ast.Assign) and not all(isinstance(t, ast.Name) for t in st.targets):
+                return False
+            continue
+        if isinstance(st, ast.If) and _only_assigns(st.body) and _only_assigns(st.orelse):
+            continue
+        if isinstance(st, ast.Expr) and isinstance(st.value, ast.Constant):
+            continue
+        return False
+    return True
 
 
 def id_key(t):
